@@ -12,6 +12,7 @@ package main
 // supervisor that attributes a fatal runtime error to the vector that caused it.
 
 import (
+	"runtime/debug"
 	"bytes"
 	stdjson "encoding/json"
 	"fmt"
@@ -632,6 +633,45 @@ func init() {
 
 // c06rectype: the witness of open finding F-C06-1 (runs alone: it is expected to die)
 type recMap map[string]recMap
+
+// c06ptrkey: the witness of open finding F-C06-5 (runs alone: it is expected to die): a map keyed by pointers whose
+// type has MarshalText
+type ptrKey struct{ s string }
+
+func (k *ptrKey) MarshalText() ([]byte, error) { return []byte("k:" + k.s), nil }
+
+func init() {
+	tools["c06ptrkey"] = func([]string) {
+		debug.SetMaxStack(64 << 20)
+		want, _ := stdjson.Marshal(map[*ptrKey]int{{s: "hello"}: 1})
+		b, err := json.Marshal(map[*ptrKey]int{{s: "hello"}: 1})
+		fmt.Printf("%s %v want %s\n", b, err, want)
+		if string(b) == string(want) {
+			fmt.Println("C06PTRKEY-OK")
+		}
+	}
+	// byte-kind slice elements with value-receiver unmarshal methods (fixed finding F-C06-6): decoded like encoding/json
+	tools["c06bytekinds"] = func([]string) {
+		var a, b []bvJ
+		e1 := stdjson.Unmarshal([]byte("[1,2]"), &a)
+		e2 := json.Unmarshal([]byte("[1,2]"), &b)
+		var c, d []bvT
+		e3 := stdjson.Unmarshal([]byte(`["a"]`), &c)
+		e4 := json.Unmarshal([]byte(`["a"]`), &d)
+		fmt.Println(a, e1, b, e2, c, e3, d, e4)
+		if fmt.Sprint(a, e1 == nil, c, e3 == nil) == fmt.Sprint(b, e2 == nil, d, e4 == nil) {
+			fmt.Println("C06BYTEKINDS-OK")
+		}
+	}
+}
+
+type bvJ uint8
+
+func (bvJ) UnmarshalJSON([]byte) error { return nil }
+
+type bvT uint8
+
+func (bvT) UnmarshalText([]byte) error { return nil }
 
 func init() {
 	tools["c06rectype"] = func([]string) {
